@@ -73,6 +73,8 @@ def run(ctx):
     # ---- R03.3 / R03.4 expiry and id guard (the parts of C10 that are necessary for 'no spurious loss') --------
     share(ctx, c10, {"R10.2": "R03.3", "R10.7": "R03.3", "R10.5": "R03.4"}, only=("hook-iff-not-kept", "retain-iff-now-le-expiry", "now-is-clock-now",
                                                                     "release-and-hook-only-if-id-present", "ids-fresh", "hook-under-total-weight-lock"))
+    import c09
+    share(ctx, c09, {"R09.6": "R03.3"}, only=("retain-iff-now-le-expiry", "now-is-clock-now"))
     stale_entries(ctx, T)
     no_overwrite(ctx, "R03.5")
     # ---- R03.6 the hooks remove by the key recorded with the released id ------------------------------------
@@ -92,9 +94,7 @@ def run(ctx):
 
 
 def share(ctx, mod, rulemap, only):
-    sub = type(ctx)(ctx.prop, ctx.facts, ctx.tier, ctx.config)
-    mod.run(sub)
-    for o in sub.obligations:
+    for o in ctx.own_of(mod.__name__):
         if o["rule"] in rulemap and any(x in o["key"] for x in only):
             ctx._add(o["status"], rulemap[o["rule"]], o["key"].split("|", 1)[1], o["desc"], o["where"], o["detail"])
 
@@ -186,9 +186,7 @@ def no_overwrite(ctx, RULE):
     """hooks remove store entries by key: that hits the right incarnation only if a store insert never overwrites
     an existing entry (C05 R05.3)"""
     import c05
-    sub = type(ctx)(ctx.prop, ctx.facts, ctx.tier, ctx.config)
-    c05.run(sub)
-    for o in sub.obligations:
+    for o in ctx.own_of("c05"):
         if o["rule"] == "R05.3":
             ctx._add(o["status"], RULE, o["key"].split("|", 1)[1],
                      o["desc"] + " [needed here because the eviction/expiry hooks remove the store entry by key: an overwritten entry would make a stale id remove a newer incarnation]", o["where"], o["detail"])
